@@ -12,7 +12,7 @@ Open Scope nat_scope.
 (* one slice                                                                                 *)
 (* ---------------------------------------------------------------------------------------- *)
 Definition wslice_ok (m : shm) (s : slice) : Prop :=
-  rd s = start s /\ rd s <= wr s /\ wr s <= cap s /\ length (sdata m s) = cap s /\
+  (rd s = start s /\ start s = 0) /\ rd s <= wr s /\ wr s <= cap s /\ length (sdata m s) = cap s /\
   (shmf s = true -> exists t, slot_at m (off s) = Some t /\ st_cap t = cap s /\ st_hasnext t = false).
 
 Lemma wslice_slice_ok m s : wslice_ok m s -> slice_ok m s.
@@ -85,7 +85,7 @@ Qed.
 
 Lemma wslice_ok_frame m m' s : (shmf s = true -> slot_at m' (off s) = slot_at m (off s)) -> wslice_ok m s -> wslice_ok m' s.
 Proof.
-  intros Hf [H1 [H2 [H3 [H4 H5]]]]. unfold wslice_ok. rewrite (sdata_frame m m' s Hf). repeat split; auto.
+  intros Hf [[H1 H1'] [H2 [H3 [H4 H5]]]]. unfold wslice_ok. rewrite (sdata_frame m m' s Hf). repeat split; auto.
   intros E. rewrite (Hf E). apply H5. exact E.
 Qed.
 
@@ -175,7 +175,9 @@ Record WB (m : shm) (l : lbuf) : Prop := {
   wb_len : len l = Z.of_nat (length (content m l));
   wb_pos : match wpos l with WNil => slices l = [] | WAt i => S i = length (slices l) | WGone => False end;
   wb_last : slices l <> [] -> (0 < len l)%Z -> 0 < ssize (last (slices l) dummy);
-  wb_shm : fromshm l = true -> Forall (fun s => shmf s = true) (slices l) }.
+  wb_shm : fromshm l = true -> Forall (fun s => shmf s = true) (slices l);
+  (* nothing written yet: at most the adopted (reset, shm) slice *)
+  wb_zero : len l = 0%Z -> length (slices l) <= 1 /\ Forall (fun s => shmf s = true) (slices l) }.
 
 Record wstep (m : shm) (l : lbuf) (m' : shm) (l' : lbuf) : Prop := {
   ws_cnt : forall x, cnt (frees m') x + cnt (offs (slices l')) x = cnt (frees m) x + cnt (offs (slices l)) x;
@@ -465,11 +467,11 @@ Qed.
 (* from a finished fill to the buffer invariant *)
 Lemma WB_of_filled m0 l0 pre ss bs m' l' ss' total n :
   filled m0 l0 pre ss bs m' l' ss' -> ss <> [] -> 0 < n ->
-  bodies m' (slices l') = total -> (len l' + Z.of_nat n)%Z = Z.of_nat (length total) ->
+  bodies m' (slices l') = total -> (len l' + Z.of_nat n)%Z = Z.of_nat (length total) -> n <= length total ->
   (fromshm l' = true -> Forall (fun s => shmf s = true) (pre ++ ss)) ->
   WB m' (set_len l' (len l' + Z.of_nat n)%Z).
 Proof.
-  intros [G1 G2 G3 G4 G5 G6 G7 G8 G9 G10 G11] Hne Hn Hb Hlen Hshm.
+  intros [G1 G2 G3 G4 G5 G6 G7 G8 G9 G10 G11] Hne Hn Hb Hlen Hnt Hshm.
   assert (Hne' : ss' <> []) by (intros ->; destruct ss; [congruence|cbn in G3; lia]).
   constructor; cbn [slices set_len wpos len fromshm].
   - exact G6.
@@ -478,6 +480,7 @@ Proof.
   - rewrite G2, G1, app_length, G3. destruct ss; [congruence|]. cbn [length]. lia.
   - intros _ _. rewrite G1, last_app_ne by exact Hne'. exact G9.
   - intros Hf. rewrite G1. eapply Forall_map_shmf; [exact G11|]. apply Hshm. exact Hf.
+  - intros Hz. lia.
 Qed.
 
 Record wrote (m : shm) (l : lbuf) (bs : list byte) (m' : shm) (l' : lbuf) : Prop := {
@@ -504,7 +507,7 @@ Qed.
 Theorem write_bytes_ok m l bs : wpre m l -> bs <> [] ->
   exists m' l', write_bytes bs m l = Ok (length bs, m', l') /\ wrote m l bs m' l'.
 Proof.
-  intros [Hok [Hwb Hown]] Hne. pose proof Hwb as [W1 W2 W3 W4 W5 W6].
+  intros [Hok [Hwb Hown]] Hne. pose proof Hwb as [W1 W2 W3 W4 W5 W6 W7].
   unfold write_bytes. destruct bs as [|b0 bs0] eqn:Ebs; [congruence|]. rewrite <- Ebs in *. clear Ebs b0 bs0.
   assert (Hbpos : 0 < length bs) by (destruct bs; [congruence|cbn; lia]).
   unfold ensure_wslice. destruct (wpos l) as [|i|] eqn:Ewp; [| |contradiction].
@@ -530,7 +533,7 @@ Proof.
     { rewrite (fi_bodies _ _ _ _ _ _ _ _ F), Hhd. reflexivity. }
     constructor.
     + apply wstep_set_len. eapply wstep_trans; [exact A2|]. apply (wstep_set_wpos_l m1 l1 m' l' (WAt 0)). exact (fi_step _ _ _ _ _ _ _ _ F).
-    + eapply WB_of_filled; [exact F|exact Hnew|exact Hbpos|exact Hb| |].
+    + eapply WB_of_filled; [exact F|exact Hnew|exact Hbpos|exact Hb| |rewrite ?app_length; lia|].
       * destruct (fi_same _ _ _ _ _ _ _ _ F) as [S1 _]. rewrite S1. cbn [len l0 set_wpos]. rewrite A10, W3, Hcontent0. cbn [length]. lia.
       * intros Hf. destruct (fi_same _ _ _ _ _ _ _ _ F) as [_ [_ [_ [S4 _]]]]. rewrite S4 in Hf. cbn [fromshm l0 set_wpos] in Hf.
         destruct A8 as [[_ Hall]|Hfalse]; [exact Hall|congruence].
@@ -552,7 +555,7 @@ Proof.
       { rewrite (fi_bodies _ _ _ _ _ _ _ _ F), Hcontent0. cbn [hd]. rewrite <- app_assoc. reflexivity. }
       constructor.
       * apply wstep_set_len. exact (fi_step _ _ _ _ _ _ _ _ F).
-      * eapply WB_of_filled; [exact F|discriminate|exact Hbpos|exact Hb| |].
+      * eapply WB_of_filled; [exact F|discriminate|exact Hbpos|exact Hb| |rewrite ?app_length; lia|].
         -- destruct (fi_same _ _ _ _ _ _ _ _ F) as [S1 _]. rewrite S1, W3, app_length. lia.
         -- intros Hf. destruct (fi_same _ _ _ _ _ _ _ _ F) as [_ [_ [_ [S4 _]]]]. rewrite S4 in Hf. rewrite <- Hsl. apply W6, Hf.
       * change (content m' (set_len l' (len l' + Z.of_nat (length bs))%Z)) with (bodies m' (slices l')). exact Hb.
@@ -605,7 +608,7 @@ Proof.
       constructor.
       * apply wstep_set_len. eapply wstep_trans; [exact P1|]. eapply wstep_trans; [exact A2|].
         apply (wstep_set_wpos_l m2 l2 m' l' (WAt (S (length pre)))). exact (fi_step _ _ _ _ _ _ _ _ F).
-      * eapply WB_of_filled; [exact F|exact Hnew|exact Hbpos|exact Hb| |].
+      * eapply WB_of_filled; [exact F|exact Hnew|exact Hbpos|exact Hb| |rewrite ?app_length; lia|].
         -- destruct (fi_same _ _ _ _ _ _ _ _ F) as [S1 _]. rewrite S1. cbn [len l3 set_wpos]. rewrite A10. cbn [len l1 set_slices].
            rewrite W3, app_length. lia.
         -- intros Hf. destruct (fi_same _ _ _ _ _ _ _ _ F) as [_ [_ [_ [S4 _]]]]. rewrite S4 in Hf. cbn [fromshm l3 set_wpos] in Hf.
@@ -628,7 +631,7 @@ Record WBw (m : shm) (l : lbuf) : Prop := {
   ww_own : forall x, cnt (frees m) x + cnt (offs (slices l)) x <= 1 }.
 
 Lemma WBw_of_wpre m l : wpre m l -> WBw m l.
-Proof. intros [_ [[W1 W2 W3 W4 W5 W6] Hown]]. constructor; auto. Qed.
+Proof. intros [_ [[W1 W2 W3 W4 W5 W6 W7] Hown]]. constructor; auto. Qed.
 
 Lemma WBw_alloc m l m' l' new : WBw m l -> alloc_facts m l m' l' new -> WBw m' l'.
 Proof.
@@ -676,6 +679,7 @@ Proof.
     + intros Hf. rewrite R6 in Hf. specialize (W4 Hf). rewrite R1. rewrite Hsl in W4.
       apply Forall_app in W4. destruct W4 as [Wp Wc]. apply Forall_app. split; [exact Wp|].
       inversion Wc; subst. constructor; [congruence|constructor].
+    + intros Hz. rewrite R2 in Hz. rewrite W3 in Hz. destruct w; [congruence|]. cbn [length] in Hz. lia.
   - exact Hc.
   - intros x. rewrite Hoffs. replace (frees (put_store m s w)) with (frees m) by (unfold frees; rewrite P5; reflexivity). apply W5.
 Qed.
@@ -708,7 +712,7 @@ Qed.
 Theorem write_byte_ok m l b : wpre m l ->
   exists m' l', write_byte b m l = Ok (m', l') /\ wrote m l [b] m' l'.
 Proof.
-  intros Hpre. pose proof (WBw_of_wpre m l Hpre) as Hw. destruct Hpre as [Hok [Hwb Hown]]. pose proof Hwb as [W1 W2 W3 W4 W5 W6].
+  intros Hpre. pose proof (WBw_of_wpre m l Hpre) as Hw. destruct Hpre as [Hok [Hwb Hown]]. pose proof Hwb as [W1 W2 W3 W4 W5 W6 W7].
   unfold write_byte, ensure_wslice. destruct (wpos l) as [|i|] eqn:Ewp; [| |contradiction].
   - destruct (lb_alloc m l 1) as [m1 l1] eqn:Eal.
     destruct (alloc_step m l 1 m1 l1 Hok Hown W1 W2 ltac:(lia) Eal) as [new [A Ht]].
@@ -844,7 +848,7 @@ Qed.
 Theorem reserve_ok m l bs : wpre m l -> bs <> [] ->
   exists m' l', reserve bs m l = Ok (m', l') /\ wrote m l bs m' l'.
 Proof.
-  intros Hpre Hne. pose proof (WBw_of_wpre m l Hpre) as Hw. destruct Hpre as [Hok [Hwb Hown]]. pose proof Hwb as [W1 W2 W3 W4 W5 W6].
+  intros Hpre Hne. pose proof (WBw_of_wpre m l Hpre) as Hw. destruct Hpre as [Hok [Hwb Hown]]. pose proof Hwb as [W1 W2 W3 W4 W5 W6 W7].
   assert (Hpos : 0 < length bs) by (destruct bs; [congruence|cbn; lia]).
   unfold reserve. destruct (Nat.eqb_spec (length bs) 0) as [|_]; [lia|].
   unfold ensure_wslice. destruct (wpos l) as [|i|] eqn:Ewp; [| |contradiction].
